@@ -13,10 +13,11 @@ func init() {
 	register(&Prop{
 		ID:        "C16",
 		Level:     "other",
-		Technique: "effect whitelist over every decoder of pkg/kmsg (all input access goes through kbin.Reader), allocation-source rule (every make() size in a decoder derives from a length reader that is bounded by the remaining input, after the reader's failure test), loop/index idiom rule for decoded arrays, guard rule on the bounded length readers of both kbin copies, idiom rules (grow-or-truncate to the decoded length, counted loop below that length, range loop) for every index/slice of the hand-written decoders, field-width agreement of the hand-written Record codec",
+		Technique: "effect whitelist over every decoder of pkg/kmsg (all input access goes through kbin.Reader), allocation-source rule (every make() size in a decoder derives from a length reader that is bounded by the remaining input, after the reader's failure test), loop/index idiom rule for decoded arrays, guard rule on the bounded length readers of both kbin copies, dominating-guard bounds proof of the kbin reader copy inside pkg/kmsg, idiom rules (grow-or-truncate to the decoded length, counted loop below that length, range loop) for every index/slice of the hand-written decoders, field-width agreement of the hand-written Record codec",
 		Explanation: "(1) no decoder of pkg/kmsg (every readFrom, the ReadFrom/UnsafeReadFrom wrappers, ReadTags/SkipTags/internalReadTags) indexes or slices its input: src is only wrapped into kbin.Reader{Src: src} and every byte is obtained through a kbin.Reader method (whose bounds C17 proves); " +
-			"(2) every make() in a decoder has a size that derives only from kbin.Reader.ArrayLen / CompactArrayLen / VarintArrayLen (possibly clamped at zero, possibly minus an existing capacity); in generated decoders the allocation is under `l > 0` and after the `if !b.Ok() { return b.Complete() }` bail-out that follows the length read; " +
+			"(2) every make() in a decoder (readFrom, the wrappers and the tag readers) has a size that derives only from kbin.Reader.ArrayLen / CompactArrayLen / VarintArrayLen (possibly clamped at zero, possibly minus an existing capacity); in generated decoders the allocation is under `l > 0` and after the `if !b.Ok() { return b.Complete() }` bail-out that follows the length read; " +
 			"(3) those three readers return a non-zero length r only when len(b.Src) >= r and otherwise poison the reader (bad = true, Src = nil), in pkg/kbin and in pkg/kmsg/internal/kbin; so each allocation is at most (remaining input) elements, and after a failed read no further allocation happens; " +
+			"(3b) every index/slice/binary.BigEndian access of pkg/kmsg/internal/kbin (the reader the decoders use) is proven in bounds from dominating guards; " +
 			"(4) every index into a decoded array is `a[i]` inside `for i := 0; i < l; i++` directly after `a = a[:0]; if l > 0 { a = append(a, make(T, l)...) }` with the same a, l, i (or a range loop over the array itself); " +
 			"(5) every index/slice in the hand-written decoders of pkg/kmsg (api.go, record.go) is one of: the idiom of (4); `S[:cap(S)]` / `S[:N]` inside `need := N - cap(S); if need > 0 { S = append(S[:cap(S)], make(T, need)...) } else { S = S[:N] }` with N clamped at zero (afterwards len(S) == N); `S[i]` in a loop `i < N` following that idiom; `S[i]` in `for i := range S`; " +
 			"(6) Record: the field written as the timestamp delta varlong is the full-width field the reader stores the varlong into (the narrow int32 copy is only the zero-fallback), so re-encoding a decoded record does not truncate.",
@@ -72,6 +73,15 @@ func runC16(c *Ctx) {
 			c16lenReader(c, mm, f)
 		}
 	}
+	// (3b) the reader the decoders actually use (pkg/kmsg/internal/kbin): every
+	// index/slice of it is proven in bounds from dominating guards (C17 proves
+	// the same for pkg/kbin and that the two files are identical)
+	var kkeys []string
+	for _, f := range m.FuncsIn("kbin") {
+		kkeys = append(kkeys, f.Key)
+	}
+	nk := boundsRule(c, m, "reader-bounds", kkeys, kbinSummaries, nil)
+	c.Floor("reader-bounds/sinks", nk, 45)
 	// (5) hand-written decoders: every slice index / slice expression is one of the recognised idioms
 	nHand := 0
 	for _, f := range decoders {
@@ -151,10 +161,7 @@ func c16decoder(c *Ctx, m *Module, f *Func, nMake, nIdx, nSrc *int) {
 		return true
 	})
 	c.Check(bad == "", rule1, f.Key, f.Pos(), m, "input only through kbin.Reader", bad)
-	if f.Decl.Name.Name != "readFrom" {
-		return
-	}
-	generated := filepath.Base(m.Fset.Position(f.Decl.Pos()).Filename) == "generated.go" || f.Key == "kmsg.Record.readFrom"
+	generated := f.Decl.Name.Name == "readFrom" && (filepath.Base(m.Fset.Position(f.Decl.Pos()).Filename) == "generated.go" || f.Key == "kmsg.Record.readFrom")
 	g := f.Graph()
 	// (2) allocation sources
 	rule2 := "decoder-allocation-source"
@@ -206,6 +213,9 @@ func c16decoder(c *Ctx, m *Module, f *Func, nMake, nIdx, nSrc *int) {
 		c.OK(rule2, cons, call.Pos(), m, "size derives from a bounded length reader")
 		return true
 	})
+	if f.Decl.Name.Name != "readFrom" {
+		return
+	}
 	// (4) index idiom
 	rule4 := "decoded-array-index"
 	k = 0
